@@ -200,10 +200,10 @@ func c13Batch(job *c13Job, mark func(fi, ci int)) *c13Out {
 		out.Done = true
 		return out
 	}
-	decode := func(v *value, t int, data []byte, fi, ci int) outcome {
+	decode := func(v *value, t int, data []byte, stall bool, fi, ci int) outcome {
 		mark(fi, ci)
 		decodeSeq.Add(1) // odd: in flight
-		o := decodeWith(v, t, data)
+		o := decodeWith(v, t, data, stall)
 		decodeSeq.Add(1)
 		out.Evals++
 		return o
@@ -221,7 +221,7 @@ func c13Batch(job *c13Job, mark func(fi, ci int)) *c13Out {
 		for _, v := range vals {
 			for t := 0; t < 3; t++ {
 				if b, ok := v.base(t); ok {
-					o := decode(v, t, b.data, -1, k)
+					o := decode(v, t, b.data, false, -1, k)
 					k++
 					if o.paniced {
 						return fail(0, nil, "C13.panic@"+o.site, fmt.Sprintf("decoding well-formed %s bytes with the %s decoder: %v", v.label, decoderName(v, t), o.pval))
@@ -248,14 +248,21 @@ func c13Batch(job *c13Job, mark func(fi, ci int)) *c13Out {
 		}
 		for ci := ci0; ci < len(cases); ci++ {
 			c := cases[ci]
-			o := decode(v, c.t, c.data, fi, ci)
+			o := decode(v, c.t, c.data, c.stall, fi, ci)
 			dn := decoderName(v, c.t)
 			if o.alloc > allocProbe {
 				out.Counters["probe.alloc-over-64MiB@"+dn]++
 				logf("probe: %s decoder, %s: one decode allocated %d MiB", dn, c.label, o.alloc>>20)
 			}
 			var check, detail string
+			_, spun := o.pval.(stallSpin)
 			switch {
+			case o.paniced && spun:
+				check = "C13.no-termination-on-timeout@" + dn
+				detail = fmt.Sprintf("%s decoder, %s: the reader reported the expired deadline %d times and the decoder still asked for more", dn, c.label, stallPollLimit)
+			case c.stall && o.err == nil:
+				check = "C13.value-from-stalled-stream@" + dn
+				detail = fmt.Sprintf("%s decoder, %s: a value was returned although the encoding never arrived completely", dn, c.label)
 			case o.paniced:
 				check = "C13.panic@" + o.site
 				detail = fmt.Sprintf("%s decoder, %s (%d bytes): panic: %v (called from %s)", dn, c.label, len(c.data), o.pval, o.caller)
